@@ -1,1 +1,17 @@
-int main(){return 0;}
+// REPLAY adapter for unit http_retry: the REAL HttpClient::isIdempotentMethod against the RFC 9110 9.2.2 set (exact, case-sensitive).
+// The retry loop itself (performRequest) cannot be driven natively without a peer: executeRequest is a non-virtual private member;
+// a failing loop obligation is therefore reported with no-failing-input-found.
+#include "iora/network/http_client.hpp"
+#include "replay_io.h"
+int main(int argc, char **argv) {
+  auto in = replay_io::load(argv[1]);
+  std::vector<uint8_t> d = replay_io::bytes(in["IN"]);
+  if (in.count("IN_N")) d.resize(std::min<size_t>(d.size(), replay_io::u64(in["IN_N"])));
+  std::string m(d.begin(), d.end());
+  bool got = iora::network::HttpClient::isIdempotentMethod(m);
+  static const char *rfc[] = {"GET", "HEAD", "OPTIONS", "TRACE", "PUT", "DELETE"};   // safe methods + PUT + DELETE
+  bool want = false; for (auto r : rfc) if (m == r) want = true;
+  if (got != want) replay_io::fail("isIdempotentMethod(\"" + m + "\") returned " + (got ? "true" : "false") + ", RFC 9110 9.2.2 says " + (want ? "idempotent" : "not idempotent"));
+  replay_io::ok("classification equals RFC 9110 9.2.2 on this method token");
+  return 0;
+}
